@@ -57,6 +57,45 @@ func init() {
 
 // realise constructs the abstract value a in the real code by the given recipe.
 func realise(a *AV, recipe string) (o Outcome, src string, ok bool) {
+	if recipe == "apicap" {
+		// a contiguous string / byte array / array built over a slice with spare capacity, the way
+		// values produced by append-based code paths look
+		kind, off, items, isSeq := a.seqView()
+		if !isSeq {
+			return o, "", false
+		}
+		for _, it := range items {
+			if it == nil {
+				return o, "", false
+			}
+		}
+		msg, frame, p := catch(func() {
+			switch kind {
+			case "ch":
+				rs := make([]rune, len(items), len(items)+4)
+				for i, it := range items {
+					rs[i] = rune(it.N)
+				}
+				o.V = rel.NewOffsetString(rs, off)
+			case "by":
+				bs := make([]byte, len(items), len(items)+4)
+				for i, it := range items {
+					bs[i] = byte(it.N)
+				}
+				o.V = rel.NewOffsetBytes(bs, off)
+			case "it":
+				vs := make([]rel.Value, len(items), len(items)+4)
+				for i, it := range items {
+					vs[i] = it.Build()
+				}
+				o.V = rel.NewOffsetArray(off, vs...)
+			}
+		})
+		if p {
+			o = Outcome{Panic: msg, Frame: frame}
+		}
+		return o, "rel.NewOffset{String,Bytes,Array} over a slice with spare capacity (" + a.RenderSugar() + ")", true
+	}
 	if recipe == "api" {
 		msg, frame, p := catch(func() { o.V = a.Build() })
 		if p {
@@ -411,7 +450,10 @@ func (c *saCtx) chainCase(cs *saCase) {
 	}
 	vals := make([]rel.Value, n)
 	srcs := make([]string, n)
-	c.obs.Key = string(mustJSON(cs.Prog)) + exp[0].Canon() + exp[1].Canon()
+	c.obs.Key = string(mustJSON(cs.Prog)) + exp[0].Canon()
+	if n > 1 {
+		c.obs.Key += exp[1].Canon()
+	}
 	c.obs.NonTrivial = 1
 	binAPI := map[string]func(a, b rel.Set) rel.Set{"|": rel.Union, "&": rel.Intersect, "&~": rel.Difference, "~~": rel.SymmetricDifference}
 	useAPI := c.mode == "c03" && hashOf(verifSeed, c.obs.Key)%2 == 0
@@ -430,6 +472,11 @@ func (c *saCtx) chainCase(cs *saCase) {
 				}
 			}
 			rc := rs[hashOf(verifSeed, i, exp[i].Canon())%uint64(len(rs))]
+			if c.mode == "c03" && useAPI {
+				if _, _, ok := realise(exp[i], "apicap"); ok {
+					rc = "apicap"
+				}
+			}
 			o, src, _ = realise(exp[i], rc)
 			opname = "lit:" + rc
 			l = exp[i]
